@@ -27,7 +27,7 @@ ALL_DTYPES = ["int8", "int16", "int32", "int64", "uint8", "uint16", "uint32", "u
               "bool", "float16", "complex128", "bigendian"]
 GOOD_OUTS = ["none", "ok", "ok_guard", "ok_strided", "ok_neg"]
 BAD_OUTS = ["f32", "i64", "long", "short", "col", "row", "zero_d"]
-LAYOUTS = ["C", "F", "strided", "neg"]
+LAYOUTS = ["C", "F", "strided", "neg", "packed"]
 ALL_VIAS = ["direct", "callable", "euclidean", "manhattan", "cityblock"]
 ALL_UBITS = [0, 7, 8, 15, 16, 31, 32, 63, 64]
 DIST_INVS = ["TypeOK", "ViewIsLogical", "Exact", "OutHoldsResult", "Shape1D", "NoStrayWrite", "RejectsBadInput",
